@@ -19,7 +19,7 @@ from __future__ import annotations
 
 from qstatic.dom_sym import sym_quat, labelled, arrays_same, first_diff, SymArr
 from .common import new_interp, run_guarded, short
-from .common_qsvd import ContractTracer, ref_contract
+from .common_qsvd import ContractTracer, ref_contract, require_unless_failed
 
 LEVEL = "other"
 EXPLANATION = ("Abstract interpretation of qr_qua over symbolic quaternion inputs for every shape in a box (tall, "
@@ -109,5 +109,6 @@ def run(ctx):
     tracer.emit(ctx, R2)
     ctx.notes["real_contract_calls_observed"] = tracer.calls
     ctx.notes["configuration_classes"] = sorted(branches)
-    ctx.require_instances(R1, 5 * N * N)
-    ctx.require_instances(R2, 4)
+    ctx.require_instances(R1, N * N)
+    require_unless_failed(ctx, R1, 5 * N * N, (R1,))
+    require_unless_failed(ctx, R2, 4, (R1,))
